@@ -1151,3 +1151,193 @@ Proof.
   apply (C20_fetch_known c input host tps t ps0 p x H1 H2).
   eapply Permutation_in; [exact Hperm|exact H3].
 Qed.
+
+(* ================================================================================================== *)
+(* Examples (non-vacuity): two brokers; t1 has 4 partitions of which partition 1 has no leader,        *)
+(* t2 has 2 partitions, topic "empty" is known with 0 partitions, "nope" is unknown                    *)
+(* ================================================================================================== *)
+Definition c20_state : cstate :=
+  {| correlation := 7;
+     brokers := [ {| b_node := 10; b_host := tag "h0:9092" |}; {| b_node := 11; b_host := tag "h1:9092" |} ];
+     topic_partitions := [ (tag "t1", [0; UNKNOWN_BROKER_INDEX; 1; 0]); (tag "t2", [1; 0]); (tag "empty", []) ];
+     group_coordinators := [] |}.
+
+Definition c20_cfg (storage : Z) : config :=
+  {| client_id := tag "cid"; hosts := [tag "h0:9092"]; compression := 0; fetch_max_wait_time := 100;
+     fetch_min_bytes := 4096; fetch_max_bytes_per_partition := 32768; fetch_crc_validation := true;
+     offset_storage := storage; retry_backoff_time := (0, 100000000); retry_max_attempts := 120;
+     idle_timeout := (540, 0) |}.
+
+Definition c20_client (storage : Z) : client := {| cfg := c20_cfg storage; cs := c20_state; conns := [] |}.
+
+Definition c20_env : codecs :=
+  {| gz_compress := fun b => b; sn_compress := fun b => b; gz_decompress := fun b => Some b; debug_build := false |}.
+
+(* a state with a non-empty script and an older trace: a call that did I/O would change both *)
+Definition c20_st (storage : Z) : st :=
+  {| script := [OConn true; OWrote 1000]; trace := [EShutdown (tag "earlier")]; anyq := []; hostq := [];
+     fetchq := []; entryq := []; cl := c20_client storage; env := c20_env |}.
+
+Example known_ex :
+  known c20_state (tag "t1") 3 /\ known c20_state (tag "t1") 1
+  /\ ~ known c20_state (tag "t1") 4 /\ ~ known c20_state (tag "t1") (-1)
+  /\ ~ known c20_state (tag "nope") 0 /\ ~ known c20_state (tag "empty") 0
+  /\ find_broker c20_state (tag "t1") 1 = None.
+Proof.
+  rewrite !known_iff. vm_compute. repeat split; try reflexivity; discriminate.
+Qed.
+
+Example C20_offsets_known_ex :
+  offset_reqs c20_state [tag "t1"; tag "nope"; tag "t2"; tag "empty"] (-1)
+  = [ (tag "h0:9092", [ (tag "t1", [(0, -1); (3, -1)]); (tag "t2", [(1, -1)]) ]);
+      (tag "h1:9092", [ (tag "t1", [(2, -1)]); (tag "t2", [(0, -1)]) ]) ].
+Proof. vm_compute. reflexivity. Qed.
+
+Definition c20_fq t p o m := {| fq_topic := t; fq_partition := p; fq_offset := o; fq_max_bytes := m |}.
+Definition c20_input : list fetch_partition :=
+  [ c20_fq (tag "t1") 0 5 0; c20_fq (tag "nope") 0 1 0; c20_fq (tag "t1") 1 6 0; c20_fq (tag "t2") 0 7 100;
+    c20_fq (tag "t1") 4 8 0; c20_fq (tag "t1") (-1) 9 0; c20_fq (tag "t1") 2 10 0; c20_fq (tag "t1") 0 11 0;
+    c20_fq (tag "empty") 0 0 0 ].
+
+Example C20_fetch_known_ex :
+  fetch_reqs (c20_client 1) c20_input
+  = [ (tag "h0:9092", [ (tag "t1", [(0, (11, 32768))]) ]);
+      (tag "h1:9092", [ (tag "t2", [(0, (7, 100))]); (tag "t1", [(2, (10, 32768))]) ]) ].
+Proof. vm_compute. reflexivity. Qed.
+
+Example C20_fetch_silent_ex :
+  filter (fq_has_leader (c20_client 1)) c20_input
+  = [ c20_fq (tag "t1") 0 5 0; c20_fq (tag "t2") 0 7 100; c20_fq (tag "t1") 2 10 0; c20_fq (tag "t1") 0 11 0 ]
+  /\ fetch_reqs (c20_client 1) c20_input = fetch_reqs (c20_client 1) (filter (fq_has_leader (c20_client 1)) c20_input).
+Proof. vm_compute. split; reflexivity. Qed.
+
+Definition c20_pm t p k v := {| pq_topic := t; pq_partition := p; pq_key := k; pq_value := v |}.
+Definition c20_batch : list produce_message :=
+  [ c20_pm (tag "t1") 0 None (Some (tag "a")); c20_pm (tag "t2") 0 (Some (tag "k")) (Some (tag "b"));
+    c20_pm (tag "t1") 0 None (Some (tag "c")); c20_pm (tag "t1") 2 None None;
+    c20_pm (tag "t2") 1 None (Some (tag "e")); c20_pm (tag "t1") 3 None (Some (tag "f"));
+    c20_pm (tag "t2") 0 None (Some (tag "g")) ].
+
+Example C20_produce_known_ex :
+  produce_reqs c20_state c20_batch []
+  = Some [ (tag "h0:9092", [ (tag "t1", [ (0, [(None, Some (tag "a")); (None, Some (tag "c"))]);
+                                          (3, [(None, Some (tag "f"))]) ]);
+                             (tag "t2", [ (1, [(None, Some (tag "e"))]) ]) ]);
+           (tag "h1:9092", [ (tag "t2", [ (0, [(Some (tag "k"), Some (tag "b")); (None, Some (tag "g"))]) ]);
+                             (tag "t1", [ (2, [(None, None)]) ]) ]) ].
+Proof. vm_compute. reflexivity. Qed.
+
+(* a batch whose last record goes to the leaderless partition t1/1: nothing is sent *)
+Definition c20_bad_batch : list produce_message := c20_batch ++ [ c20_pm (tag "t1") 1 None (Some (tag "z")) ].
+
+Example C20_produce_local_fail_ex :
+  (exists m, In m c20_bad_batch /\ find_broker c20_state (pq_topic m) (pq_partition m) = None)
+  /\ produce_reqs c20_state c20_bad_batch [] = None
+  /\ fst (internal_produce_messages 1 1000 c20_bad_batch (c20_st 1)) = Err (EKafka KC_UnknownTopicOrPartition)
+  /\ trace (snd (internal_produce_messages 1 1000 c20_bad_batch (c20_st 1))) = trace (c20_st 1)
+  /\ script (snd (internal_produce_messages 1 1000 c20_bad_batch (c20_st 1))) = script (c20_st 1)
+  /\ correlation (cs (cl (snd (internal_produce_messages 1 1000 c20_bad_batch (c20_st 1))))) = 8.
+Proof.
+  split; [exists (c20_pm (tag "t1") 1 None (Some (tag "z"))); split; [|reflexivity]|].
+  - unfold c20_bad_batch. apply in_or_app. right. left. reflexivity.
+  - vm_compute. repeat split; reflexivity.
+Qed.
+
+Definition c20_co t p o := {| co_topic := t; co_partition := p; co_offset := o |}.
+
+Example C20_commit_known_ex :
+  commit_tps c20_state [c20_co (tag "t1") 0 100; c20_co (tag "t2") 1 200; c20_co (tag "t1") 1 300; c20_co (tag "t1") 0 400] []
+  = Some [ (tag "t1", [(0, 100); (1, 300); (0, 400)]); (tag "t2", [(1, 200)]) ].
+Proof. vm_compute. reflexivity. Qed.
+
+Example C20_commit_local_fail_ex :
+  commit_tps c20_state [c20_co (tag "t1") 0 100; c20_co (tag "t1") 4 200] [] = None
+  /\ ~ known c20_state (tag "t1") 4
+  /\ fst (commit_offsets (tag "g") [c20_co (tag "t1") 0 100; c20_co (tag "t1") 4 200] (c20_st 1))
+     = Err (EKafka KC_UnknownTopicOrPartition)
+  /\ trace (snd (commit_offsets (tag "g") [c20_co (tag "t1") 0 100; c20_co (tag "t1") 4 200] (c20_st 1)))
+     = trace (c20_st 1)
+  /\ 0 <= offset_storage (cfg (cl (c20_st 1))).
+Proof.
+  rewrite known_iff. vm_compute. repeat split; try reflexivity; discriminate.
+Qed.
+
+Example C20_group_fetch_known_ex :
+  group_fetch_tps c20_state [(tag "t2", 1); (tag "t1", 3); (tag "t2", 0); (tag "t1", 1)] []
+  = Some [ (tag "t2", [1; 0]); (tag "t1", [3; 1]) ].
+Proof. vm_compute. reflexivity. Qed.
+
+Example C20_group_fetch_local_fail_ex :
+  group_fetch_tps c20_state [(tag "t2", 1); (tag "nope", 0)] [] = None
+  /\ ~ known c20_state (tag "nope") 0
+  /\ fst (fetch_group_offsets (tag "g") [(tag "t2", 1); (tag "nope", 0)] (c20_st 0))
+     = Err (EKafka KC_UnknownTopicOrPartition)
+  /\ trace (snd (fetch_group_offsets (tag "g") [(tag "t2", 1); (tag "nope", 0)] (c20_st 0))) = trace (c20_st 0).
+Proof.
+  rewrite known_iff. vm_compute. repeat split; try reflexivity; discriminate.
+Qed.
+
+Example C20_group_topic_ex :
+  partitions_for c20_state (tag "t1") = Some [0; UNKNOWN_BROKER_INDEX; 1; 0]
+  /\ group_topic_tps (tag "t1") 4 = [(tag "t1", [0; 1; 2; 3])]
+  /\ partitions_for c20_state (tag "nope") = None
+  /\ fst (fetch_group_topic_offset (tag "g") (tag "nope") (c20_st 1)) = Err (EKafka KC_UnknownTopicOrPartition)
+  /\ trace (snd (fetch_group_topic_offset (tag "g") (tag "nope") (c20_st 1))) = trace (c20_st 1)
+  /\ group_topic_tps (tag "empty") 0 = [].
+Proof. vm_compute. repeat split; reflexivity. Qed.
+
+Example C20_topic_offsets_unknown_ex :
+  partitions_for (cs (cl (c20_st 1))) (tag "nope") = None
+  /\ fst (fetch_topic_offsets (tag "nope") (-1) (c20_st 1)) = Err (EKafka KC_UnknownTopicOrPartition)
+  /\ trace (snd (fetch_topic_offsets (tag "nope") (-1) (c20_st 1))) = trace (c20_st 1)
+  /\ script (snd (fetch_topic_offsets (tag "nope") (-1) (c20_st 1))) = script (c20_st 1).
+Proof. vm_compute. repeat split; reflexivity. Qed.
+
+Example C20_after_reset_ex :
+  offset_reqs (clear_metadata c20_state) [tag "t1"; tag "t2"] (-1) = []
+  /\ fetch_reqs {| cfg := c20_cfg 1; cs := clear_metadata c20_state; conns := [] |} c20_input = []
+  /\ produce_reqs (clear_metadata c20_state) c20_batch [] = None
+  /\ offset_reqs c20_state [tag "t1"; tag "t2"] (-1) <> [].
+Proof. vm_compute. repeat split; try reflexivity; discriminate. Qed.
+
+Example C20_ordered_ex :
+  reorder [tag "h1:9092"; tag "zzz"] (offset_reqs c20_state [tag "t1"] (-1))
+  = [ (tag "h1:9092", [ (tag "t1", [(2, -1)]) ]); (tag "h0:9092", [ (tag "t1", [(0, -1); (3, -1)]) ]) ]
+  /\ order_fetch [(tag "t1", [2]); (tag "t2", [])] [ (tag "t2", [(0, (7, 100))]); (tag "t1", [(0, (1, 1)); (2, (10, 32768))]) ]
+     = [ (tag "t1", [(2, (10, 32768)); (0, (1, 1))]); (tag "t2", [(0, (7, 100))]) ].
+Proof. vm_compute. split; reflexivity. Qed.
+
+Example upsert_ex :
+  tp_add [(tag "a", [1]); (tag "b", [2])] (tag "b") 3 = [(tag "a", [1]); (tag "b", [2; 3])]
+  /\ tp_add [(tag "a", [1]); (tag "b", [2])] (tag "c") 3 = [(tag "a", [1]); (tag "b", [2]); (tag "c", [3])]
+  /\ fp_insert [(0, (1, 1)); (2, (5, 5))] 2 (9, 9) = [(0, (1, 1)); (2, (9, 9))].
+Proof. vm_compute. repeat split; reflexivity. Qed.
+
+Print Assumptions known_iff.
+Print Assumptions C20_offsets_leader.
+Print Assumptions C20_offsets_known.
+Print Assumptions C20_fetch_leader.
+Print Assumptions C20_fetch_known.
+Print Assumptions C20_fetch_silent.
+Print Assumptions C20_produce_leader.
+Print Assumptions C20_produce_known.
+Print Assumptions C20_produce_local_fail.
+Print Assumptions C20_produce_call_local_fail.
+Print Assumptions C20_commit_known.
+Print Assumptions C20_commit_local_fail.
+Print Assumptions C20_commit_call_local_fail.
+Print Assumptions C20_group_fetch_known.
+Print Assumptions C20_group_fetch_local_fail.
+Print Assumptions C20_group_fetch_call_local_fail.
+Print Assumptions C20_group_topic.
+Print Assumptions C20_group_topic_known.
+Print Assumptions C20_group_topic_exact.
+Print Assumptions C20_topic_offsets_unknown.
+Print Assumptions C20_after_reset.
+Print Assumptions C20_after_reset_offsets.
+Print Assumptions C20_after_reset_fetch.
+Print Assumptions C20_after_reset_produce.
+Print Assumptions C20_reset_call.
+Print Assumptions C20_ordered_same.
+Print Assumptions C20_order_fetch_known.
+Print Assumptions sel_upsert.
